@@ -1190,6 +1190,155 @@ Section EthRoute.
     signable cid tx -> signable cid tx' ->
     signed_content_of cid tx <> signed_content_of cid tx' -> sign_preimage cid tx <> sign_preimage cid tx'.
   Proof. intros H1 H2 Hne E. apply Hne. apply sign_preimage_inj; assumption. Qed.
+
+  (** ** the message as it travels: Data, and the self-reported Hash and From
+
+      Who a message is authenticated as is a function of its Data; the Hash and
+      From texts can only make it be refused. *)
+  Notation auth_m := (auth_emsg hash recover cfg).
+  Notation step_m := (step_emsg_tx hash recover cfg).
+
+  Lemma emsg_auth_data st m a : auth_m st m = Some a ->
+    exists tx, as_tx m = Some tx /\ m_hash m = hash_hex (tx_hash hash tx) /\ m_from m = EmptyString /\
+               auth st tx = Some a.
+  Proof.
+    unfold auth_emsg. destruct (as_tx m) as [tx|]; [|discriminate].
+    unfold claims_ok. destruct (String.eqb (m_hash m) (hash_hex (tx_hash hash tx))) eqn:E1; [|discriminate].
+    destruct (String.eqb (m_from m) EmptyString) eqn:E2; [|discriminate].
+    cbn [andb]. intros H. exists tx. apply String.eqb_eq in E1. apply String.eqb_eq in E2. auto.
+  Qed.
+
+  (** for given Data at most one pair of claims passes, and the account is the same
+      whatever is claimed: the claims cannot choose on whose behalf Data executes *)
+  Theorem emsg_claims_cannot_choose st d h f h' f' a a' :
+    auth_m st (mk_emsg d h f) = Some a -> auth_m st (mk_emsg d h' f') = Some a' -> a = a' /\ h = h' /\ f = f'.
+  Proof.
+    intros H1 H2.
+    apply emsg_auth_data in H1 as (tx & T1 & Hh & Hf & A1). apply emsg_auth_data in H2 as (tx' & T2 & Hh' & Hf' & A2).
+    unfold as_tx in T1, T2. cbn [m_data m_hash m_from] in *. rewrite T1 in T2. inversion T2; subst tx'.
+    rewrite A1 in A2. inversion A2. subst. auto.
+  Qed.
+
+  Theorem emsg_forged_hash_unauthenticated st m tx :
+    as_tx m = Some tx -> m_hash m <> hash_hex (tx_hash hash tx) -> auth_m st m = None.
+  Proof.
+    intros T Hne. destruct (auth_m st m) as [a|] eqn:E; [|reflexivity].
+    apply emsg_auth_data in E as (tx' & T' & Hh & _). rewrite T in T'. inversion T'; subst tx'. contradiction.
+  Qed.
+
+  Theorem emsg_forged_from_unauthenticated st m : m_from m <> EmptyString -> auth_m st m = None.
+  Proof.
+    intros Hne. destruct (auth_m st m) as [a|] eqn:E; [|reflexivity].
+    apply emsg_auth_data in E as (tx' & _ & _ & Hf & _). contradiction.
+  Qed.
+
+  (** a Cosmos transaction that contains one message whose Hash text is not the hash
+      of its Data -- the hash of another transaction, executed or not, of the same
+      or of another account; any text -- is refused as a whole, without effect,
+      whatever the state, the other messages and the verdict of the other checks *)
+  Theorem emsg_tx_forged_hash_rejected st ms ok m tx :
+    In m ms -> as_tx m = Some tx -> m_hash m <> hash_hex (tx_hash hash tx) -> step_m st (ms, ok) = (st, None).
+  Proof.
+    intros Hin T Hne. apply (tx_unauthenticated_rejected _ _ _ st ms ok m Hin).
+    exact (emsg_forged_hash_unauthenticated st m tx T Hne).
+  Qed.
+
+  Theorem emsg_tx_forged_from_rejected st ms ok m :
+    In m ms -> m_from m <> EmptyString -> step_m st (ms, ok) = (st, None).
+  Proof.
+    intros Hin Hne. apply (tx_unauthenticated_rejected _ _ _ st ms ok m Hin).
+    exact (emsg_forged_from_unauthenticated st m Hne).
+  Qed.
+
+  (** every (account, nonce) executes at most once over all histories of
+      transactions of messages, whatever the messages claim *)
+  Theorem emsg_tx_each_nonce_once h st j k j' k' a n :
+    executed_emsg hash recover cfg st h j k a n -> executed_emsg hash recover cfg st h j' k' a n -> j = j' /\ k = k'.
+  Proof. apply tx_each_nonce_once. Qed.
+
+  (** on messages as [FromEthereumTx] writes them (Hash = hash of Data, From
+      empty) the machine of messages is the machine of transactions *)
+  Definition canonical (m : emsg) (tx : eth_tx) : Prop := as_tx m = Some tx /\ claims_ok hash m tx = true.
+
+  Lemma auth_all_canonical st ms txs : Forall2 canonical ms txs ->
+    auth_all auth_m st ms = auth_all auth st txs /\ map emsg_nonce ms = map tx_nonce txs.
+  Proof.
+    induction 1 as [|m tx ms txs [T C] F [IHa IHn]]; [split; reflexivity|].
+    split.
+    - cbn [auth_all]. rewrite IHa. unfold auth_emsg at 1. rewrite T, C. reflexivity.
+    - cbn [map]. rewrite IHn. unfold emsg_nonce at 1. rewrite T. reflexivity.
+  Qed.
+
+  Theorem emsg_tx_canonical st ms txs ok : Forall2 canonical ms txs -> step_m st (ms, ok) = step_tx st (txs, ok).
+  Proof.
+    intros F. destruct (auth_all_canonical st ms txs F) as [Ha Hn].
+    unfold step_emsg_tx, step_eth_tx, SigModel.step_tx. rewrite Ha, Hn. destruct F; reflexivity.
+  Qed.
+
+  (** [from_eth_tx] writes canonical messages whenever the conversion back gives
+      the transaction ([roundtrip_fields] of TxCodec/EthTxProofs.v says when) *)
+  Lemma from_eth_tx_canonical csum tx m : from_eth_tx hash csum tx = Some m -> as_tx m = Some tx -> canonical m tx.
+  Proof.
+    unfold from_eth_tx. destruct (to_txdata csum tx) as [d| | |]; try discriminate.
+    intros E T. inversion E; subst m. split; [exact T|]. unfold claims_ok. cbn [m_hash m_from].
+    rewrite String.eqb_refl. reflexivity.
+  Qed.
+
+  (** ** ... under the cryptographic premises: what executes is signed Data *)
+  Section MsgNegative.
+    Variable signed : bytes -> Z -> eth_tx -> Prop.
+
+    Lemma auth_eth_signed_partial st tx a :
+      Unforgeable signed -> CollisionFree -> SignedAreSignable signed -> signable (c_eip155 cfg) tx ->
+      auth st tx = Some a ->
+      exists cid0 tx0, signed a cid0 tx0 /\ signed_content_of cid0 tx0 = signed_content_of (c_eip155 cfg) tx.
+    Proof.
+      intros Hunf Hcf Hss Hsig Hauth. unfold auth_eth in Hauth.
+      destruct (negb (c_allow_unprotected cfg) && negb (protected tx)); [discriminate|].
+      destruct (sender_some _ _ _ Hauth) as (r & s & v & Hrec).
+      destruct (Hunf _ _ _ _ _ Hrec) as (cid0 & tx0 & Hs & Hh).
+      exists cid0, tx0. split; [exact Hs|].
+      apply sign_preimage_inj; [exact (Hss _ _ _ Hs)|exact Hsig|]. apply Hcf. exact Hh.
+    Qed.
+
+    (** message [k] of an accepted transaction executes on behalf of [a]: then
+        its Hash text is the hash of its Data, its From text is empty, [a]'s key
+        holder signed exactly the content of its Data, and the nonce in its Data is
+        [a]'s sequence at that point of the transaction *)
+    Theorem emsg_executes_only_signed_data_partial st ms ok l k m a :
+      Unforgeable signed -> CollisionFree -> SignedAreSignable signed ->
+      snd (step_m st (ms, ok)) = Some l -> nth_error ms k = Some m -> nth_error l k = Some a ->
+      exists tx, as_tx m = Some tx /\ m_hash m = hash_hex (tx_hash hash tx) /\ m_from m = EmptyString /\
+                 tx_nonce tx = (st a + N.of_nat (count_occ (list_eq_dec N.eq_dec) (firstn k l) a))%N /\
+                 (signable (c_eip155 cfg) tx ->
+                  exists cid0 tx0, signed a cid0 tx0 /\ signed_content_of cid0 tx0 = signed_content_of (c_eip155 cfg) tx).
+    Proof.
+      intros Hunf Hcf Hss Hacc Hm Hl.
+      destruct (step_tx_message _ _ _ _ _ _ _ _ _ _ Hacc Hm Hl) as (Hauth & Hn & _).
+      destruct (emsg_auth_data _ _ _ Hauth) as (tx & T & Hh & Hf & Ha).
+      exists tx. repeat split; try assumption.
+      - unfold emsg_nonce in Hn. rewrite T in Hn. exact Hn.
+      - intros Hsig. exact (auth_eth_signed_partial st tx a Hunf Hcf Hss Hsig Ha).
+    Qed.
+
+    (** a message whose Data has a content nobody ever signed -- a signed
+        transaction with the nonce, the value, the recipient, the gas ... changed,
+        the old signature values kept -- poisons the whole Cosmos transaction,
+        whatever its Hash and From texts claim (e.g. the hash of the transaction
+        the signature was lifted from), whatever was validated or executed before *)
+    Theorem emsg_unsigned_data_rejected_partial st ms ok m tx' :
+      Unforgeable signed -> CollisionFree -> SignedAreSignable signed ->
+      In m ms -> as_tx m = Some tx' -> signable (c_eip155 cfg) tx' ->
+      (forall a cid0 tx0, signed a cid0 tx0 -> signed_content_of cid0 tx0 <> signed_content_of (c_eip155 cfg) tx') ->
+      step_m st (ms, ok) = (st, None).
+    Proof.
+      intros Hunf Hcf Hss Hin T Hsig Hnone. apply (tx_unauthenticated_rejected _ _ _ st ms ok m Hin).
+      destruct (auth_m st m) as [a|] eqn:E; [|reflexivity].
+      destruct (emsg_auth_data _ _ _ E) as (tx & T' & _ & _ & Ha). rewrite T in T'. inversion T'; subst tx.
+      destruct (auth_eth_signed_partial st tx' a Hunf Hcf Hss Hsig Ha) as (cid0 & tx0 & Hs & Hc).
+      exfalso. exact (Hnone a cid0 tx0 Hs Hc).
+    Qed.
+  End MsgNegative.
 End EthRoute.
 
 (** ** the positive direction: a correctly signed transaction with the right
@@ -1451,6 +1600,28 @@ Theorem sub_tx_singleton nd st s ok :
   step_sub_tx nd st ([s], ok) = (fst (step_sub nd st (s, ok)), option_map (fun a => [a]) (snd (step_sub nd st (s, ok)))).
 Proof. apply step_tx_singleton. Qed.
 
+(** Ethereum messages whose self-reported fields are recorded ([SEthMsg]): with
+    both facts true the unit is the plain [SEth] unit; with either false it is
+    not authenticated, and the Cosmos transaction that contains it is refused
+    as a whole without effect -- as an event of the recorded histories too *)
+Theorem sub_ethmsg_canonical nd st p c n r : auth_sub nd st (SEthMsg true true p c n r) = auth_sub nd st (SEth p c n r).
+Proof. reflexivity. Qed.
+
+Theorem sub_ethmsg_forged_unauthenticated nd st hb fe p c n r :
+  hb && fe = false -> auth_sub nd st (SEthMsg hb fe p c n r) = None.
+Proof. intros H. cbn [auth_sub]. rewrite H. reflexivity. Qed.
+
+Theorem sub_tx_forged_rejected nd st ms ok hb fe p c n r :
+  In (SEthMsg hb fe p c n r) ms -> hb && fe = false -> step_sub_tx nd st (ms, ok) = (st, None).
+Proof.
+  intros Hin H. apply (tx_unauthenticated_rejected _ _ _ st ms ok _ Hin).
+  apply sub_ethmsg_forged_unauthenticated. exact H.
+Qed.
+
+Theorem sub_event_forged_rejected nd st ms ok hb fe p c n r :
+  In (SEthMsg hb fe p c n r) ms -> hb && fe = false -> step_sub_event nd st (ESub (Direct ms ok)) = (st, None).
+Proof. intros Hin H. exact (sub_tx_forged_rejected nd st ms ok hb fe p c n r Hin H). Qed.
+
 (** * non-vacuity *)
 Section Examples.
   (** a toy signature scheme satisfying the single hypothesis: the "signature"
@@ -1676,6 +1847,97 @@ Section Examples.
   Example ex_unprotected :
     protected ex_homestead = false /\ step_eth toy_hash toy_recover ex_cfg ex_state (ex_homestead, true) = (ex_state, None).
   Proof. split; [reflexivity|]. apply unprotected_rejected; reflexivity. Qed.
+  (** ** messages with forged Hash / From texts: key 42 (sequence 5)
+
+      [T] = its signed transaction with nonce 5, [T'] the one with nonce 6;
+      [renonce T 6] = T with the nonce in Data set to 6 and the OLD signature
+      values kept.  The history: T as [FromEthereumTx] writes it (executes); the
+      re-nonced Data under the Hash text of T (the forged replay); the same with
+      the Hash recomputed from the changed Data; the genuine T' under the Hash
+      text of T; T' with a From text; T' beside the forged replay in one Cosmos
+      transaction; T' as it should be (executes); T again. *)
+  Definition ex_data (tx : eth_tx) : tx_data :=
+    match to_txdata no_csum tx with
+    | EthTxModel.Wrapped d => d
+    | _ => DLegacy (mk_legacy_pb 0 None 0 EmptyString None [] [] [] [])
+    end.
+  Definition ex_hash_text (tx : eth_tx) : string := hash_hex (tx_hash toy_hash tx).
+  Definition ex_msg (tx : eth_tx) : emsg := mk_emsg (ex_data tx) (ex_hash_text tx) EmptyString.
+  Definition renonce (tx : eth_tx) (n : N) : eth_tx :=
+    match tx with
+    | TxDynamicFee t => TxDynamicFee (mk_df (d_chain_id t) n (d_tip t) (d_fee_cap t) (d_gas t) (d_to t) (d_value t)
+                                            (d_data t) (d_accesses t) (d_v t) (d_r t) (d_s t))
+    | x => x
+    end.
+  Definition ex_T := ex_tx 42 5 1.
+  Definition ex_T' := ex_tx 42 6 2.
+  Definition ex_forged_replay : emsg := mk_emsg (ex_data (renonce ex_T 6)) (ex_hash_text ex_T) EmptyString.
+  Definition ex_forged_history : list (list emsg * bool) :=
+    [ ([ex_msg ex_T], true);
+      ([ex_forged_replay], true);
+      ([ex_msg (renonce ex_T 6)], true);
+      ([mk_emsg (ex_data ex_T') (ex_hash_text ex_T) EmptyString], true);
+      ([mk_emsg (ex_data ex_T') (ex_hash_text ex_T') "0x0000000000000000000000000000000000002a07"], true);
+      ([ex_msg ex_T'; mk_emsg (ex_data (renonce ex_T 7)) (ex_hash_text ex_T) EmptyString], true);
+      ([ex_msg ex_T'], true);
+      ([ex_msg ex_T], true) ].
+
+  Example ex_forged_outcomes :
+    from_eth_tx toy_hash no_csum ex_T = Some (ex_msg ex_T) /\
+    as_tx ex_forged_replay = Some (renonce ex_T 6) /\
+    outcomes_emsg_tx toy_hash toy_recover ex_cfg ex_state ex_forged_history
+    = [Some [A42]; None; None; None; None; None; Some [A42]; None] /\
+    seq_of (final_emsg_tx toy_hash toy_recover ex_cfg ex_state ex_forged_history) = (7%N, 0%N).
+  Proof. vm_compute. repeat split; reflexivity. Qed.
+
+  (** the premises of [emsg_tx_forged_hash_rejected] hold for the forged replay *)
+  Example ex_forged_premises :
+    as_tx ex_forged_replay = Some (renonce ex_T 6) /\
+    m_hash ex_forged_replay <> hash_hex (tx_hash toy_hash (renonce ex_T 6)) /\
+    step_emsg_tx toy_hash toy_recover ex_cfg ex_state ([ex_forged_replay], true) = (ex_state, None).
+  Proof.
+    assert (T : as_tx ex_forged_replay = Some (renonce ex_T 6)) by (vm_compute; reflexivity).
+    assert (Hne : m_hash ex_forged_replay <> hash_hex (tx_hash toy_hash (renonce ex_T 6))) by (vm_compute; discriminate).
+    split; [exact T|]. split; [exact Hne|].
+    apply (emsg_tx_forged_hash_rejected toy_hash toy_recover ex_cfg ex_state [ex_forged_replay] true ex_forged_replay _ (or_introl eq_refl) T Hne).
+  Qed.
+
+  (** the canonical messages of the history run exactly as the transactions do *)
+  Example ex_canonical :
+    step_emsg_tx toy_hash toy_recover ex_cfg ex_state ([ex_msg ex_T; ex_msg ex_T'], true)
+    = step_eth_tx toy_hash toy_recover ex_cfg ex_state ([ex_T; ex_T'], true).
+  Proof.
+    apply emsg_tx_canonical. repeat constructor; vm_compute; reflexivity.
+  Qed.
+
+  (** NOT the code of /repo: with the memo of [step_memo] the forged replay is
+      taken for T.  T executes, then the message whose Data is T with the nonce
+      set to the account's new sequence -- Data nobody signed: no account is
+      recovered from it -- executes T a second time on behalf of the account, under
+      the same premises under which the machine of the code refuses it. *)
+  Theorem memo_replays_refuted :
+    exists (hash : bytes -> bytes) (recover : bytes -> Z -> Z -> Z -> option bytes) (cfg : chain_cfg)
+           (st : bytes -> N) (m1 m2 : emsg) (a : bytes) (T T2 : eth_tx),
+      outcomes_memo hash recover cfg (st, []) [(m1, true); (m2, true)] = [Some (a, T); Some (a, T)] /\
+      as_tx m1 = Some T /\ as_tx m2 = Some T2 /\ T2 <> T /\ sender hash recover (c_eip155 cfg) T2 = None /\
+      outcomes_emsg_tx hash recover cfg st [([m1], true); ([m2], true)] = [Some [a]; None].
+  Proof.
+    exists toy_hash, toy_recover, ex_cfg, ex_state, (ex_msg ex_T), ex_forged_replay, A42, ex_T, (renonce ex_T 6).
+    split; [vm_compute; reflexivity|]. split; [vm_compute; reflexivity|]. split; [vm_compute; reflexivity|].
+    split; [intros E; apply (f_equal tx_nonce) in E; vm_compute in E; discriminate|].
+    split; vm_compute; reflexivity.
+  Qed.
+
+  (** the recorded form: a forged unit is refused whatever is recovered, the
+      canonical one is the [SEth] unit *)
+  Example ex_sub_forged :
+    let nd := mk_node ex_cfg "haqq_11235-1" [] in
+    let st := fun a : N => if N.eqb a 0 then 6%N else 0%N in
+    snd (step_sub_tx nd st ([SEthMsg false true true 11235 6 (Some 0%N)], true)) = None /\
+    snd (step_sub_tx nd st ([SEthMsg true false true 11235 6 (Some 0%N)], true)) = None /\
+    snd (step_sub_tx nd st ([SEthMsg true true true 11235 6 (Some 0%N)], true)) = Some [0%N] /\
+    snd (step_sub_tx nd st ([SEth true 11235 6 (Some 0%N); SEthMsg false true true 11235 7 (Some 0%N)], true)) = None.
+  Proof. vm_compute. repeat split; reflexivity. Qed.
 End Examples.
 
 (** the cryptographic premises of the [_partial] theorems are jointly
